@@ -87,6 +87,20 @@ RingRaw(rg, nn, len, t, kind) ==
             {i \in 0..(nn - 1) : rg[i].start # -1 /\ ~Deprecated(rg[i].start, t, nn * len)})
 
 
+\* Per-second aggregation (what the metric log is fed with): the buckets with start in lo..hi grouped by
+\* the calendar second they start in (off = the epoch's offset inside its second), each group summed;
+\* the average response time is rt / complete (or rt when nothing completed).  Only active items count.
+SecOf(b, off) == (b + off) - ((b + off) % 1000) - off
+SecItems(g, lo, hi, off) ==
+    LET bs == GBuckets(g, lo, hi)
+        grp(s) == {b \in bs : SecOf(b, off) = s}
+        tot(s, kind) == FoldSet(LAMBDA b, acc : acc + g[b][kind], 0, grp(s))
+        item(s) == [ts |-> s, pass |-> tot(s, "pass"), block |-> tot(s, "block"), complete |-> tot(s, "complete"),
+                    error |-> tot(s, "error"),
+                    avg |-> IF tot(s, "complete") > 0 THEN tot(s, "rt") \div tot(s, "complete") ELSE tot(s, "rt")]
+        all == {item(SecOf(b, off)) : b \in bs}
+    IN  {it \in all : it.pass > 0 \/ it.block > 0 \/ it.complete > 0 \/ it.error > 0 \/ it.avg > 0}
+
 \* record n of kind at time t in ghost g (bucket length len)
 GAdd(g, len, t, kind, c) ==
     LET b == Start(len, t)
